@@ -1,3 +1,5 @@
+\* Documentation config (not a registered step): get_latest_entry as a plain pool read BEFORE begin().
+\* TLC must report a C05 / C03 property violated (stale tip: older prune-flagged op stored below a newer prune point).
 SPECIFICATION MCSpec
 CONSTANTS
   Author = {"a1"}
@@ -5,29 +7,20 @@ CONSTANTS
   Log = {"l1"}
   MaxSeq = 3
   PrunePositions <- AllPositions
-  MaxDeliver = 7
+  MaxDeliver = 3
   MaxInFlight = 3
   ForgeBudget = 0
   Classes <- AllClasses
-  FineIngest = FALSE
+  FineIngest = TRUE
   Batch = FALSE
-  Worker = {}
-  Variant_ReadLatestBeforeBegin = FALSE
+  Worker = {"w1", "w2"}
+  Variant_ReadLatestBeforeBegin = TRUE
   Defect_PruneAfterFailedIngest = FALSE
   Defect_PruneFlagSkipsLatestCheck = FALSE
   Defect_LogIdFromTopicUnchecked = FALSE
 INVARIANTS
-  C01_OnlyAuthenticStored
-  C01_InvalidNeverCompleted
-  C03_UniqueSeq
-  C03_Linked
   C05_NoResurrection
 PROPERTIES
-  MC_C01_RejectLeavesNoTrace
-  MC_C03_HeightMonotone
-  MC_C03_RejectsNonExtending
-  MC_C04_DeletesOnlyByValidPrune
-  MC_C04_ValidPruneDeletesExactly
   MC_C05_NoInsertBelowPrunePoint
 VIEW NoHistView
 CHECK_DEADLOCK FALSE
